@@ -1,10 +1,10 @@
-\* negative control: include-tag adds every advertised tag -> SenderSound must fail
+\* negative control: seeded model defect "TaggedAny"; TLC must report SenderSound violated
 SPECIFICATION Spec
 CONSTANTS
   NC = 2
   NTP = 3
   NT = 1
-  MaxHeads = 3
+  MaxHeads = 2
   MaxWants = 1
   Modes = {"detailed"}
   IncTag = {TRUE}
